@@ -163,3 +163,42 @@ Example C13_example_pick :
   calls_nonneg [Some (bA, 30); None; Some (bC, 37)].
 Proof. exact ex_pick_facts. Qed.
 Print Assumptions C13_example_pick.
+
+(* ---- histories.  The molecule is a state machine over operations OpAdd (add_fragment, with the accept verdict),
+   OpRaw (_add_fragment), OpMol (add_molecule), OpGet (get_consensus [dove_safe] [with_probs_and_obs]); run_ops returns
+   one answer per OpGet.  held p = all fragments added by the operation sequence p. *)
+(* for EVERY operation sequence p, a query issued after p answers for exactly the fragments held - no matter which
+   routes added them and which queries were made in between (statelessness of get_consensus) *)
+Theorem C13_history_query : forall skip p st ds pr,
+  run_ops skip st (p ++ [OpGet ds pr]) = run_ops skip st p ++ [answer_of skip ds pr (st ++ held p)].
+Proof. exact history_query. Qed.
+Print Assumptions C13_history_query.
+Theorem C13_history_split : forall skip p st q,
+  run_ops skip st (p ++ q) = run_ops skip st p ++ run_ops skip (st ++ held p) q.
+Proof. exact run_ops_app. Qed.
+Print Assumptions C13_history_split.
+(* two histories holding the same multiset of fragments give equivalent consensus answers *)
+Theorem C13_history_route_independent : forall skip p1 p2 ds, Permutation (held p1) (held p2) ->
+  exists r1 r2, run_ops skip [] (p1 ++ [OpGet ds false]) = run_ops skip [] p1 ++ [AnsCons r1] /\
+                run_ops skip [] (p2 ++ [OpGet ds false]) = run_ops skip [] p2 ++ [AnsCons r2] /\
+                r1 = mol_consensus skip ds (held p1) /\ r2 = mol_consensus skip ds (held p2) /\ res_equiv r1 r2.
+Proof. exact history_route_independent. Qed.
+Print Assumptions C13_history_route_independent.
+Theorem C13_history_query_idempotent : forall skip p ds pr ds' pr',
+  run_ops skip [] (p ++ [OpGet ds' pr'; OpGet ds pr]) =
+  run_ops skip [] p ++ [answer_of skip ds' pr' (held p); answer_of skip ds pr (held p)].
+Proof. exact history_query_idempotent. Qed.
+Print Assumptions C13_history_query_idempotent.
+Theorem C13_history_one_answer_per_query : forall skip ops st,
+  length (run_ops skip st ops) = length (filter (fun o => match o with OpGet _ _ => true | _ => false end) ops).
+Proof. exact run_ops_length. Qed.
+Print Assumptions C13_history_one_answer_per_query.
+Example C13_example_history :
+  run_ops skip_fixed [] ex_history =
+  [AnsCons (Ok [((0, 20), bA); ((0, 21), bG)]);
+   AnsCons (Ok [((0, 21), bG)]);
+   AnsProbs (Ok [((0, 21), bT)]) (Ok [((0, 21), (0, 0, 0, 1, 0))]);
+   AnsCons (Ok [((0, 20), bC); ((0, 21), bG)])] /\
+  held ex_history = ex_mol ++ [nth 1 ex_mol []].
+Proof. exact ex_history_facts. Qed.
+Print Assumptions C13_example_history.
